@@ -283,7 +283,7 @@ func (w *World) AbsLines(real int) int {
 	return real - w.lineShift()
 }
 
-const extText = "verif-extension line one 100%s %d%% %v\nanother extension line with trailing blanks  \t\n"
+const extText = "verif-extension line one 100%s %d%% %v\nanother extension line with trailing blanks   \n"
 
 // Concrete is a concretised request.
 type Concrete struct {
@@ -378,8 +378,24 @@ func (w *World) Concretise(log string, r Req, stored *CP) Concrete {
 			renderNote += "/wrongorigin"
 		}
 	case "wrongorigin":
-		text = ref.CheckpointText(l.Origin+"/shard2", c.Size, c.Root, ext)
+		// the right key, another origin: one that extends, shortens, case-varies or pads the configured one
+		o := []string{l.Origin + "/shard2", l.Origin[:len(l.Origin)-1], strings.ToUpper(l.Origin), l.Origin + " ", " " + l.Origin, l.Origin + "/"}[w.Rng.Intn(6)]
+		text = ref.CheckpointText(o, c.Size, c.Root, ext)
 		sigs = l.Key.SignLegacy(text)
+		renderNote += fmt.Sprintf("/%q", o)
+	case "peerkey":
+		// THIS log's origin, signed by the key of ANOTHER configured log (or, with one log, by the witness' key)
+		k := w.WitKey
+		for _, name := range w.P.Logs {
+			if name != log && w.Logs[name].Key.Name != l.Key.Name {
+				k = w.Logs[name].Key
+			}
+		}
+		sigs = k.SignLegacy(text)
+		renderNote += "/" + k.Name
+	case "witonly":
+		// signed by the witness itself (a cosignature and a legacy line), not by the log
+		sigs = w.WitKey.SignLegacy(text) + w.WitKey.SignCosigV1(text, 1700000000)
 	case "nosig":
 		switch w.Rng.Intn(3) {
 		case 0:
